@@ -43,7 +43,7 @@ class ClientSubRun:
             self.uni = [33, 80, 8, 30, 31, 32][:nuni + 1]
         elif uk == "edge":
             # the ends of the id range: EXIT (0), 1, the last ids the statistics cover
-            self.uni = [0, 1, 10000, 9999, 1000][:nuni]
+            self.uni = [0, -7, 10000, 1, 9999][:nuni]
         else:
             self.uni = [1000, 33, 1001, 80, 8][:nuni]
         self.res.config = dict(timecode=timecode, loglevel=lvl, universe=self.uni)
@@ -305,7 +305,8 @@ class ClientSubRun:
         kind = ch.weighted("op.kind", [(5, "subscribe"), (4, "unsubscribe"), (4, "pause"), (4, "resume"),
                                        (1, "unsub_all"), (1, "pause_all"), (1, "resume_all"),
                                        (4, "sub_ctx"), (4, "pause_ctx"), (1, "reconnect"), (1, "drop_reconnect"),
-                                       (3 if self.twin is not None else 0, "concurrent"), (1, "short_read")])
+                                       (3 if self.twin is not None else 0, "concurrent"), (1, "short_read"),
+                                       (2, "read_ack")])
         if self.twin is not None and self.twin.connected and ch.flag("op.twin", 1, 3):
             tl = self.arg_list("twin")
             tk = ch.choose("twin.kind", ["subscribe", "unsubscribe", "pause", "resume"])
@@ -388,6 +389,17 @@ class ClientSubRun:
                             sig="context_not_restored:" + ("paused" if s1 == s0 else "subscribed"))
             elif kind == "concurrent":
                 self.concurrent_ops()
+            elif kind == "read_ack":
+                # the application reads with ack=True (it wants to see acknowledgements this once): that is a matter
+                # of this one call and changes nothing about what the client is subscribed to
+                from pyrtma.exceptions import ClientError
+                self.t("read_message(timeout=0, ack=True)")
+                try:
+                    c.read_message(timeout=0, ack=True)
+                except ClientError:
+                    pass
+                self.res.probes["read_with_ack"] += 1
+                self.check_agreement("read_message(ack=True)")
             elif kind == "short_read":
                 # the manager's next blocking read from this client comes back short (part of the request has
                 # arrived, a signal interrupts the wait): whatever the manager makes of it -- it may give the
